@@ -51,6 +51,9 @@ var c08Imports = []string{
 	"import \"example.com/lib/a\"\nimport bb \"example.com/lib/b\"\nimport \"other.io/q\"\n",
 	"import (\n\t// about a\n\t\"example.com/lib/a\" // trailing a\n\tbb \"example.com/lib/b\"\n\t_ \"example.com/lib/v\"\n\n\t// group two\n\t\"other.io/q\"\n)\n",
 	"import (\n\t\"example.com/lib/a\"\n)\n\nimport (\n\tbb \"example.com/lib/b\"\n\t\"other.io/q\"\n)\n",
+	// an import declaration without specs (legal, and kept by gofmt) next to the others
+	"import ()\n\nimport (\n\t\"example.com/lib/a\"\n\tbb \"example.com/lib/b\"\n\n\t\"other.io/q\"\n)\n",
+	"import (\n\t\"example.com/lib/a\"\n\tbb \"example.com/lib/b\"\n\t\"other.io/q\"\n)\n\n// nothing here yet\nimport () // still nothing\n",
 	// import paths with elements that end in "vendor" without being a vendor directory
 	"import (\n\t\"example.com/govendor/ctx\"\n\t\"example.com/lib/a\"\n\tbb \"example.com/lib/b\"\n\tvcfg \"xvendor/cfg\" // aliased\n\n\t\"other.io/q\"\n)\n",
 }
@@ -290,7 +293,7 @@ func checkC08(c *Ctx) {
 		}
 		c.Fail(Finding{Sig: "selector-" + res.Violated, Input: it.Key, What: "predicate " + res.Violated + " of SelectorTrace.tla fails for slots " + truncate(it.Key, 500), Replay: it.Replay})
 	})
-	c.Set("rule", "case = one canonical source with qualified identifiers (comments / line breaks before X, behind the dot, behind Sel; statement, argument, element and type contexts; four import-block shapes) through decorate(accurate resolver)+restore(accurate names), or one corpus file; non-trivial = comments present; distinct by source + resolver")
+	c.Set("rule", "case = one canonical source with qualified identifiers (comments / line breaks before X, behind the dot, behind Sel; statement, argument, element and type contexts; seven import-block shapes) through decorate(accurate resolver)+restore(accurate names), or one corpus file; non-trivial = comments present; distinct by source + resolver")
 }
 
 func dupImport(src []byte) bool {
